@@ -104,6 +104,104 @@ pub fn o_token(s: &String, st: &mut Stats) -> Result<(), String> {
     Ok(())
 }
 
+/// A PURL with *very many* qualifiers (thousands to tens of thousands of distinct keys). Any digest,
+/// bucket or narrow index the implementation keeps per key meets its collisions by the birthday
+/// effect here: n keys are n^2/2 pairs in a single parse. The case is a pure function of
+/// (seed, n, order); keys are 3-8 characters over the key alphabet, distinct ignoring case.
+#[derive(Clone, Debug, Serialize, Deserialize)]
+pub struct ManyKeys {
+    pub seed: u64,
+    pub n: u32,
+    /// 0 written in sorted order, 1 in reverse order, 2 interleaved from both ends
+    pub order: u8,
+}
+
+pub fn many_keys(seed: u64, n: u32) -> Vec<(String, String)> {
+    const FIRST: &[u8] = b"abcdefghijklmnopqrstuvwxyz";
+    const REST: &[u8] = b"abcdefghijklmnopqrstuvwxyz0123456789._-";
+    let mut seen = std::collections::BTreeSet::new();
+    let mut i = 0u64;
+    while (seen.len() as u32) < n {
+        let mut z = crate::engine::mix(&[seed, i]);
+        i += 1;
+        let len = 3 + (z % 6) as usize;
+        z /= 6;
+        let mut k = String::with_capacity(len);
+        k.push(FIRST[(z % 26) as usize] as char);
+        z /= 26;
+        for _ in 1..len {
+            k.push(REST[(z % 39) as usize] as char);
+            z /= 39;
+        }
+        if k != "checksum" {
+            seen.insert(k);
+        }
+    }
+    seen.into_iter().enumerate().map(|(j, k)| (k, format!("v{j}"))).collect()
+}
+
+pub fn gmany() -> BoxedStrategy<ManyKeys> {
+    prop_oneof![
+        // the orders that insert in the middle of the collection cost n^2 in the implementation: smaller n
+        3 => (any::<u64>(), 1_000u32..6_000, 0u8..3).prop_map(|(seed, n, order)| ManyKeys { seed, n, order }),
+        3 => (any::<u64>(), 20_000u32..40_000).prop_map(|(seed, n)| ManyKeys { seed, n, order: 0 }),
+        1 => (any::<u64>(), 65_530u32..66_000).prop_map(|(seed, n)| ManyKeys { seed, n, order: 0 }),
+    ]
+    .boxed()
+}
+
+fn o_many(c: &ManyKeys, st: &mut Stats) -> Result<(), String> {
+    if c.n > 200_000 || c.order > 2 {
+        return Err("bad replay case: many-keys parameters".into());
+    }
+    let sorted = many_keys(c.seed, c.n);
+    let n = sorted.len();
+    let order: Vec<usize> = match c.order {
+        0 => (0..n).collect(),
+        1 => (0..n).rev().collect(),
+        _ => (0..n).map(|i| if i % 2 == 0 { i / 2 } else { n - 1 - i / 2 }).collect(),
+    };
+    let mut s = String::from("pkg:npm/%40scope/name@1.0?");
+    for (j, &i) in order.iter().enumerate() {
+        if j > 0 {
+            s.push('&');
+        }
+        let (k, v) = &sorted[i];
+        // every third key in upper case (key letter case is a listed freedom)
+        if crate::engine::mix(&[c.seed, i as u64, 7]) % 3 == 0 {
+            s.push_str(&k.to_ascii_uppercase());
+        } else {
+            s.push_str(k);
+        }
+        s.push('=');
+        s.push_str(v);
+    }
+    s.push_str("#sub");
+    let expected = Obs {
+        ty: "npm".into(),
+        ns: Some("@scope".into()),
+        name: "name".into(),
+        version: Some("1.0".into()),
+        quals: sorted,
+        subpath: Some("sub".into()),
+    };
+    let short = |e: String| if e.len() > 600 { format!("{} ... [{} bytes]", e.chars().take(600).collect::<String>(), e.len()) } else { e };
+    let (_, ta) = one::<IStr>(&s, &expected).map_err(short)?;
+    let (_, tb) = one::<ISmall>(&s, &expected).map_err(short)?;
+    let (_, tc) = one::<ITyped>(&s, &expected).map_err(short)?;
+    if ta != tb || ta != tc {
+        return Err(format!("the three instantiations print a PURL with {n} qualifiers differently (seed {}, order {})", c.seed, c.order));
+    }
+    st.class(match c.n {
+        0..=9_999 => "thousands of keys",
+        10_000..=65_535 => "tens of thousands of keys",
+        _ => "more than 65535 keys",
+    });
+    st.class_if(c.order != 0, "not written in sorted order");
+    st.nontrivial(&(c.seed, c.n, c.order), || json!({ "seed": c.seed, "keys": c.n, "order": c.order, "string_bytes": s.len() }));
+    Ok(())
+}
+
 fn o_hist(h: &crate::history::Hist<TwoSpellings>, st: &mut Stats) -> Result<(), String> {
     let s = spell(&h.inner.tuple, &h.inner.a).assemble();
     crate::history::judge(h, &s, o_two, st)
@@ -153,6 +251,14 @@ pub fn sections() -> Vec<Box<dyn Section>> {
                 "raw-/-in-version",
             ],
         }),
+        Box::new(Random {
+            name: "very-many-qualifiers".into(),
+            quick: 160,
+            thorough: 4_000,
+            strategy: Box::new(|_| gmany()),
+            oracle: o_many,
+            required: vec!["thousands of keys", "tens of thousands of keys", "more than 65535 keys", "not written in sorted order"],
+        }),
         Box::new(Enumerated {
             name: "token-language-strict-accept".into(),
             total: Box::new(|t: Tier| strata_total(&strata(t.pick(5, 6), t.pick(5, 7)))),
@@ -179,6 +285,8 @@ pub fn prop() -> Prop {
                the statement lists; both spellings must be accepted, report exactly the tuple (after the type's name rule) \
                and give equal PURLs with identical strings, for String, SmallString and (known types) PackageType. \
                Non-trivial = a spelling that uses at least two different freedoms; distinct by hash of the spelled string. \
+               A2: PURLs with thousands to tens of thousands of distinct qualifier keys (n^2/2 key pairs in one parse, \
+               so per-key digests, buckets and narrow indices meet their collisions), same oracle. \
                B: every string of the bounded token language that the independent left-to-right recogniser M-strict \
                accepts must be accepted with M-strict's components; non-trivial = such a string containing an escape, an \
                upper-case letter, a doubled slash or a dot piece (distinct by construction).",
